@@ -7,6 +7,7 @@ import (
 
 	"github.com/syndtr/goleveldb/leveldb"
 	"github.com/syndtr/goleveldb/leveldb/comparer"
+	"github.com/syndtr/goleveldb/leveldb/filter"
 	"github.com/syndtr/goleveldb/leveldb/iterator"
 	"github.com/syndtr/goleveldb/leveldb/opt"
 	"github.com/syndtr/goleveldb/leveldb/storage"
@@ -75,6 +76,7 @@ type Env struct {
 	pinned   []*leveldb.VerifVersion
 	tcache   map[int64]*tableSummary
 	opIdx    int
+	opens    int
 	delSeen  bool
 	removals int
 	versions int
@@ -140,6 +142,13 @@ func (e *Env) Open() error {
 		}
 		return false
 	})
+	if n := len(e.C.FilterCycle); n > 0 {
+		o := *e.O
+		o.Filter = gen.FilterByName(e.C.FilterCycle[e.opens%n])
+		o.AltFilters = []filter.Filter{gen.FilterByName("bloom10"), gen.HashSetFilter{}}
+		e.O = &o
+	}
+	e.opens++
 	db, err := leveldb.Open(e.FS, e.O)
 	if err != nil {
 		return e.fail("Open failed: %v", err)
